@@ -1,0 +1,22 @@
+//go:build verif
+// +build verif
+
+package cache
+
+import "sync/atomic"
+
+var verifPointFn atomic.Value // func(name string, key interface{})
+
+// VerifSetPoint installs a callback that is invoked at named points between two steps of an operation that are not
+// covered by one critical section, so that a verification harness can pause the operation there.
+//
+// Verification hook, compiled only with build tag "verif".
+func VerifSetPoint(fn func(name string, key interface{})) {
+	verifPointFn.Store(fn)
+}
+
+func verifPoint(name string, key interface{}) {
+	if fn, ok := verifPointFn.Load().(func(name string, key interface{})); ok && fn != nil {
+		fn(name, key)
+	}
+}
